@@ -14,17 +14,17 @@ CHECKS = {
   "Every ordered pair of builds of the stated families (block-level F1, shape-level F2 x all 20 compression settings, limit family F3 around 4MiB/8MiB runs) goes through the real WritePatch -> patcher -> fresh bowl; the output tree is compared entry by entry with the new build. Exhaustive within the families.",
   "Byte values outside the seeded block alphabet are not enumerated; file modes are not compared.", "DESIGN.md#c01"),
  "C02": ("model_checking", E1 + " over tree pairs containing every rename/swap/chain/duplicate/kind change on 2-3 names; pre-commit and post-commit snapshots",
-  "All 4096 pairs of P1 (rename relations), all 4096 pairs of P2 (kind changes), block-level P3 with plain and optimized patches, applied in place through the real overlay bowl; old build must be untouched before Commit, directory must equal the new build after. Commit's map iteration orders are covered by repetition only (stated in evidence).",
-  "Map iteration order of the commit phase is not enumerated (Go runtime order, repeated runs). Known findings: kind changes whose commit phases are ordered wrongly (RC1, RC3, RC4).", "DESIGN.md#c02"),
+  "All 4096 pairs of P1 (rename relations), all 4096 pairs of P2 (kind changes), block-level P3 with plain and optimized patches, applied in place through the real overlay bowl; old build must be untouched before Commit, directory must equal the new build after. Sub-check map-orders enumerates every iteration order of the maps the commit phase ranges over (pwr/bowl rebuilt with range-over-map rewritten to an explored key order).",
+  "Map orders are enumerated for P1 (thorough: P2 too). Known findings: kind changes whose commit phases are ordered wrongly (RC1, RC3, RC4).", "DESIGN.md#c02"),
  "C04": ("model_checking", E1 + " over size tuples x producers x compression; choice-tape DFS (deviation bound 2) over the source pool's read slicing",
   "All 1-3 file size tuples around block multiples x {stand-alone signing, diff-time signing vs empty / identical old build}; every signature stream read back and compared hash for hash with ComputeSignature and with an independent weak+MD5 reference; read slicings of the shared source reader enumerated by deviation-bounded DFS; pristine build validates clean.",
   "Short reads are 1 or 16383 bytes at up to 2 Read calls per execution.", "DESIGN.md#c04"),
  "C05": ("fault_enumeration", "exhaustive enumeration of damage sequences (length 1, 2; 3 in thorough) from a boundary-offset damage catalogue, oracle by independent byte comparison",
   "Every single damage and every pair (thorough: triple) of damages on distinct entries of 4 builds; wounds file decoded independently; every differing offset must lie in a FILE wound, shorter/longer files and wrong kinds must be wounded, wounds well-formed; fail-fast must return an error.",
   "Offsets/lengths from the boundary set around every block boundary; two-flip weak-hash collisions included.", "DESIGN.md#c05"),
- "C06": ("fault_enumeration", "exhaustive enumeration of damage sequences (incl. kind swaps hiding subtrees) healed by the real validator+archive healer; schedule dimension of validator/healer covered by repetition here (E2 scheduler part planned)",
+ "C06": ("model_checking", "stateless model checking of the real Validate + archive healer under a controlled scheduler with file-system calls as visible operations (preemption-bounded DFS with happens-before caching), plus exhaustive fault enumeration of damage sequences (incl. kind swaps hiding subtrees) healed by the free-running code",
   "Builds x all damage sequences of length 1-2 (+ structural triples): Validate with an archive healer must return nil, every signed entry must be present with signed content, fail-fast validation must pass afterwards, a valid directory must not be touched (inode/mtime).",
-  "Goroutine interleavings of validator and healer are not yet enumerated for this property (each case repeated 5 times, schedule-dependent failures tagged). Known finding: directory replaced by a symlink to a twin directory.", "DESIGN.md#c06"),
+  "Scheduler scenarios use small builds (files below one copy chunk) and bounds 0-1 (quick) / 1-2 (thorough); the large damage enumeration runs free (5 repetitions, schedule-dependent failures tagged). Known finding: directory replaced by a symlink to a twin directory.", "DESIGN.md#c06"),
  "C08": ("model_checking", E1 + " over renames, duplications and k<=2 localized edits at boundary offsets/lengths; fresh bytes counted from the independently decoded op stream",
   "Identical builds, every rename/duplication, every k=1 and k=2 edit (overwrite/insert/delete x boundary offsets x boundary lengths), full shift sweep 1..B-1 in thorough: copied files contribute no DATA bytes, counters add up, fresh <= introduced + (2k+2) blocks.",
   "High-entropy content from seeded pseudo-random blocks.", "DESIGN.md#c08"),
@@ -47,10 +47,10 @@ CHECKS = {
   "Pool accesses are attributed to the file announced by the patcher's progress label and cross-checked against the series' references.", "DESIGN.md#c17"),
  "C18": ("model_checking", E1 + " over signed sizes x altered-block subsets / length changes x write slicings x {error, wound, aggregated wound} mode, in-memory inner pool",
   "Every signed size around block multiples x every subset of altered blocks, truncation and extension x all slicings with <=3 cuts at boundary positions plus uniform slicings: error mode must fail at the completing write/close and leak nothing from the bad block on; wound mode must tile the written range in order with exactly the differing blocks wounded.",
-  "Writer/aggregator/relay interleavings are free-running here (E2 part planned).", "DESIGN.md#c18"),
+  "Sub-check wound-interleavings enumerates writer/relay/aggregator/consumer interleavings under the controlled scheduler (unbounded for 1-block files, bound 3 / unbounded for 2 blocks).", "DESIGN.md#c18"),
  "C19": ("model_checking", E1 + " over trees x {zip, tar} x worker counts, and every interruption point of a resumable extraction (deterministic seams), incl. forced out-of-order completion",
   "12 catalogue + 180 shape trees x formats x workers {1,2,3,4,8,16,-1}: extracted tree equals the source, counts equal entries, re-extraction idempotent; 1-worker crash after every entry and at every seam event, and forced out-of-order schedules for 2-3 workers, then restart with the same resume file must complete the tree.",
-  "Worker interleavings beyond the forced out-of-order family are free-running (E2 part planned); DryRun not covered.", "DESIGN.md#c19"),
+  "Sub-check interleavings runs ExtractZip under the controlled scheduler: bounded interleavings of dispatcher and 2-3 workers with file-system calls visible, a crash at every scheduling instant (snapshot + restart with the same resume file), entry counters split at a scheduling point (race-directed). DryRun not covered.", "DESIGN.md#c19"),
 }
 
 CHECKS.update({
@@ -62,7 +62,7 @@ CHECKS.update({
   "Optimized patches byte-identical to one already verified for the same pair are not re-applied.", "DESIGN.md#c07"),
  "C12": ("model_checking", E1 + " of bsdiff.Do + Patch against a reference applier and the mid-series restart oracle; explicit-state BFS to fixpoint over the real lrufile against a shadow model; constant-scaled cache geometries by overlay",
   "All (old,new) over {0,1} up to 8x8 and {0,1,2} up to 5x5 x partitions, structured large family, all hand-made valid series of <=5 messages under scaled cache geometries; lrufile: every reachable shadow state (offset + LRU residency) for chunk 1..4 x entries 1..3 x sizes 0..9 explored by BFS with every seek/read/reset operation, implementation stats and data compared with the shadow model at every step.",
-  "Scanner goroutine interleavings are covered under C15's controlled-scheduler scenarios; underlying readers fill the buffer except at EOF.", "DESIGN.md#c12"),
+  "Sub-check scanner-interleavings runs bsdiff.Do under the controlled scheduler (bounded interleavings of suffix-sort goroutines, workers, dispatcher, collector; match channels also scaled to 1-2 slots): every schedule must produce a series that applies to new and equals the default schedule's. Underlying readers fill the buffer except at EOF.", "DESIGN.md#c12"),
  "C13": ("model_checking", E1 + " over message-size sequences x every compressor/quality x save-request positions; every popped checkpoint gob round-tripped and resumed in a brand-new source+reader stack (also second generation)",
   "All sequences of length <=2 over sizes straddling the 32KiB buffer and its power-of-two growth steps (0..4MiB+1), monotone/big-then-small sequences of length 3-4, x {none, gzip 1-9, brotli 0-9} x save before message i / every message: uninterrupted read equals the written sequence then EOF; every resumed reader yields exactly the unread suffix; checkpoint offsets are message boundaries of the independently framed stream.",
   "No checkpoint count is asserted (brotli offers few). Brotli has no second independent decoder offline.", "DESIGN.md#c13"),
@@ -90,7 +90,7 @@ def main():
                 "thorough_cmd": f"./bin/vcheck {pid} --tier thorough",
                 "evidence_file": f"/verif/evidence/{pid}.json",
                 "replay_cmd_template": "./bin/vcheck %s --replay {path}" % pid,
-                "engine": "E1" if pid not in ("C15", "C16") else "E2",
+                "engine": "E2" if pid in ("C15", "C16") else ("E1+E2" if pid in ("C02", "C06", "C12", "C18", "C19") else "E1"),
                 "level_claimed": {"category": cat, "text": text, "design_ref": ref},
                 "level_note": note,
                 "technique": tech,
@@ -109,7 +109,7 @@ def main():
         },
         "engines": [
             {"name": "E1", "path": "/verif/lib/explore + /verif/lib/runner", "serves_properties": sorted(CHECKS.keys()), "kind_free_text": "choice-tape / odometer explorer: bounded exhaustive enumeration of inputs, environment answers, fault sequences and crash points of the real implementation, sharded over worker processes"},
-            {"name": "E2", "path": "/verif/lib/instr + /verif/engine/vsched", "serves_properties": [p for p in ("C06", "C12", "C15", "C16", "C18", "C19") if p in CHECKS], "kind_free_text": "controlled cooperative scheduler for the real goroutines (source-level instrumentation through a build overlay), preemption-bounded DFS over interleavings"},
+            {"name": "E2", "path": "/verif/lib/instr + /verif/engine/vsched", "serves_properties": [p for p in ("C02", "C06", "C12", "C15", "C16", "C18", "C19") if p in CHECKS], "kind_free_text": "controlled cooperative scheduler for the real goroutines (source-level instrumentation through a build overlay), preemption-bounded DFS over interleavings"},
         ],
         "checks": checks,
         "not_applicable": na,
